@@ -4,6 +4,8 @@
 #ifndef VERIF_PRELUDE_H
 #define VERIF_PRELUDE_H
 #ifndef CPROVER
+#define __CPROVER_atomic_begin() ((void)0)
+#define __CPROVER_atomic_end() ((void)0)
 #define __CPROVER_assert(c, m) ((void)0)
 #define __CPROVER_assume(c) ((void)0)
 #endif
